@@ -32,13 +32,28 @@ def base_opt(prop):
 
 C01_CFGS = [{}, {'options': {'output.format': False}}, {'options': {'output.selfClosingStyle': 'xhtml'}}, {'options': {'output.selfClosingStyle': 'xml', 'output.format': False}},
             {'syntax': 'xml'}, {'context': {'name': 'ul'}}, {'context': {'name': 'em'}}, {'options': {'output.inlineBreak': 0, 'output.indent': '  ', 'output.newline': '\r\n'}}]
-C02_CFGS = [{}, {}, {'maxRepeat': 1}, {'maxRepeat': 2}, {'maxRepeat': 3}, {'maxRepeat': 5}, {'maxRepeat': 9}, {'options': {'output.format': False}}]
+C02_CFGS = [{}, {}, {'syntax': 'jsx'}, {'syntax': 'svelte'}, {'maxRepeat': 1}, {'maxRepeat': 2}, {'maxRepeat': 3}, {'maxRepeat': 5}, {'maxRepeat': 9}, {'options': {'output.format': False}}]
 C03_CFGS = [{}, {'options': {'output.attributeQuotes': 'single'}}, {'options': {'output.reverseAttributes': True}}, {'options': {'output.compactBoolean': True}},
             {'options': {'output.attributeCase': 'upper'}}, {'syntax': 'jsx'}, {'syntax': 'vue'}, {'syntax': 'xml'}, {'options': {'output.selfClosingStyle': 'xhtml', 'output.compactBoolean': True, 'output.reverseAttributes': True}},
             {'options': {'output.booleanAttributes': ['lang', 'foo']}}, {'syntax': 'jsx', 'options': {'output.attributeCase': 'upper'}}, {'syntax': 'vue', 'options': {'output.attributeCase': 'upper'}},
             {'syntax': 'jsx', 'options': {'output.attributeCase': 'lower', 'output.reverseAttributes': True}},
             {'snippets': {'pair': 'dt+dd', 'trio': 'dt+dd+dl'}}, {'snippets': {'pair': 'dt+dd', 'trio': 'dt+dd+dl'}, 'options': {'output.reverseAttributes': True}}]
 C03_ALIASES = {'pair': ['dt', 'dd'], 'trio': ['dt', 'dd', 'dl']}
+
+
+def strip_note(seq):
+    """the text-only alias `note` carries nothing of its own (no attributes, text, repeater): only children"""
+    for item, op in seq:
+        if item['k'] == 'group': strip_note(item['body'])
+        elif item['name'] == 'note': item['mentions'] = []; item['text'] = None; item['rep'] = None
+
+
+def insert_empty_text(rnd, seq):
+    """put an empty text node `{}` in front of a random item of a random level (as a sibling)"""
+    i = rnd.randrange(len(seq))
+    item = seq[i][0]
+    if item['k'] == 'group' and rnd.random() < .5: insert_empty_text(rnd, item['body']); return
+    seq.insert(i, [{'k': 'elem', 'name': None, 'mentions': [], 'text': '', 'rep': None, 'slash': False}, '+'])
 
 
 def skeletons(k):
@@ -89,11 +104,18 @@ def cases(tier, seed, prop):
         n = 3000 if tier == 'quick' else 40000
         for _ in range(n):
             out.append({'seq': mk.gen_seq(rnd, opt, [rnd.randint(1, 10)], 3), 'c': rnd.choice(C01_CFGS), 'g': 'random'})
+        oi = dict(opt, names=['div', 'p', 'ul', 'li', 'span', 'em', 'br', 'hr', 'wbr', 'section', 'x', 'table', 'tr', 'td'], p_noname=.1, p_void_child=.25, p_attr=0, p_text=0, p_id=.1, p_class=.2, p_rep=.2)
+        for _ in range(n // 6):
+            seq_ = mk.gen_seq(rnd, oi, [rnd.randint(2, 9)], 2)
+            tidy_C13(seq_)
+            out.append({'seq': seq_, 'c': {'syntax': rnd.choice(['haml', 'pug', 'slim'])}, 'g': 'indent-syntax'})
         # user snippets whose definitions nest: the alias stands for its definition's tree, children go into its deepest last element -
         # on every use, also repeated ones and later ones in the same process
         oa = dict(opt, names=list(mk.ALIAS_SNIPPETS) * 2 + ['p', 'b', 'ul', 'li', 'span', 'div'], p_noname=.1, p_void_child=0, p_rep=.3)
         for _ in range(n // 6):
-            out.append({'seq': mk.gen_seq(rnd, oa, [rnd.randint(2, 8)], 2), 'c': dict(rnd.choice(C01_CFGS[:4]), snippets=dict(mk.ALIAS_SNIPPETS)), 'alias': 1, 'g': 'alias'})
+            seq_ = mk.gen_seq(rnd, oa, [rnd.randint(2, 8)], 2)
+            strip_note(seq_)
+            out.append({'seq': seq_, 'c': dict(rnd.choice(C01_CFGS[:4]), snippets=dict(mk.ALIAS_SNIPPETS)), 'alias': 1, 'g': 'alias'})
     elif prop == 'C02':
         # exhaustive numbering forms on three carriers
         for N in range(1, 6 if tier == 'quick' else 13):
@@ -116,14 +138,31 @@ def cases(tier, seed, prop):
             if n2 is None: seq = [[e, None]]
             else: seq = [[{'k': 'group', 'body': [[e, None]], 'rep': n2}, None]]
             out.append({'seq': seq, 'c': {'options': {'output.format': False}}, 'g': 'large'})
+        # numbering next to the `$#` placeholder under two nested repeaters, with a wrap text
+        for text in ('T', 'some text'):
+            for o_ in ({'output.format': False}, {'output.format': False, 'output.attributeQuotes': 'single'}):
+                q = "'" if 'output.attributeQuotes' in o_ else '"'
+                exp1 = ''.join('<ul class=%sl%d%s>' % (q, i, q) + ''.join('<li class=%si%d%s title=%s%s%s></li>' % (q, j, q, q, text, q) for j in (1, 2, 3)) + '</ul>' for i in (1, 2))
+                out.append({'s': 'ul.l$*2>li.i$[title=$#]*3', 'c': {'text': text, 'options': o_}, 'expect': exp1, 'g': 'wrapnum'})
+                exp2 = ''.join('<p class=%sa%d%s><b class=%sc%d%s>%s</b></p>' % (q, i, q, q, i + 2, q, text) for i in (1, 2))
+                out.append({'s': '(p.a$>b.c$@3{$#})*2', 'c': {'text': text, 'options': o_}, 'expect': exp2, 'g': 'wrapnum'})
+                exp3 = ''.join('<ol class=%so%02d%s>' % (q, i, q) + ''.join('<li class=%sn%d%s>%s %d</li>' % (q, 3 - j, q, text, j) for j in (1, 2)) + '</ol>' for i in (1, 2))
+                out.append({'s': 'ol.o$$*2>li.n$@-*2{$# $}', 'c': {'text': text, 'options': o_}, 'expect': exp3, 'g': 'wrapnum'})
         n = 3000 if tier == 'quick' else 40000
         for _ in range(n):
             out.append({'seq': mk.gen_seq(rnd, opt, [rnd.randint(1, 8)], 3), 'c': rnd.choice(C02_CFGS), 'g': 'random'})
         # repeated user snippets whose definitions nest: N copies of the alias are N copies of its definition, each with its own descendants
         oa = dict(opt, names=list(mk.ALIAS_SNIPPETS) * 2 + ['p', 'b', 'ul', 'li', 'span'], p_noname=0, p_rep=.6, p_attr=.15)
         for _ in range(n // 6):
-            out.append({'seq': mk.gen_seq(rnd, oa, [rnd.randint(2, 7)], 2), 'c': dict(rnd.choice([{}, {'options': {'output.format': False}}]), snippets=dict(mk.ALIAS_SNIPPETS)), 'alias': 1, 'g': 'alias'})
+            seq_ = mk.gen_seq(rnd, dict(oa, names=[x for x in oa['names'] if x != 'note']), [rnd.randint(2, 7)], 2)
+            out.append({'seq': seq_, 'c': dict(rnd.choice([{}, {'options': {'output.format': False}}]), snippets=dict(mk.ALIAS_SNIPPETS)), 'alias': 1, 'g': 'alias'})
     elif prop == 'C03':
+        for ab, exp in [('xsl:param[select=x]>p', '<xsl:param select="x"><p></p></xsl:param>'), ('xsl:param[name=n select=x]{t}', '<xsl:param name="n" select="x">t</xsl:param>'),
+                        ('xsl:variable[select=x]>p', '<xsl:variable><p></p></xsl:variable>'), ('xsl:with-param[name=n select=x]{t}', '<xsl:with-param name="n">t</xsl:with-param>'),
+                        ('xsl:param[select=x]', '<xsl:param select="x"></xsl:param>'), ('par[select=x]>b', '<xsl:param name="" select="x"><b></b></xsl:param>'), ('xsl:variable[select=x]', '<xsl:variable select="x"></xsl:variable>'),
+                        ('xsl:param[name=n select="a b"]>xsl:variable[name=m select=y]{v}', '<xsl:param name="n" select="a b"><xsl:variable name="m">v</xsl:variable></xsl:param>'),
+                        ('xsl:template[match=x select=y]>b', '<xsl:template match="x" select="y"><b></b></xsl:template>'), ('xsl:sort[select=k order=d]', '<xsl:sort select="k" order="d"></xsl:sort>')]:
+            out.append({'s': ab, 'c': {'syntax': 'xsl', 'options': {'output.format': False}}, 'expect': exp, 'g': 'xsl-select'})
         n = 4000 if tier == 'quick' else 50000
         for _ in range(n):
             c = rnd.choice(C03_CFGS)
@@ -175,7 +214,7 @@ def cases(tier, seed, prop):
         n = 3000 if tier == 'quick' else 40000
         o13 = dict(base_opt('C04'), names=['div', 'p', 'span', 'ul', 'li', 'em', 'b', 'hr', 'br', 'strong', 'section', 'x', 'table', 'tr', 'td'], p_attr=.5, p_text=.4,
                    attr_pool=[('attr', 'title', None, None), ('attr', 'lang', None, None), ('attr', 'data-x', 'y', 'raw'), ('attr', 'title', '${1}', 'dq'), ('attr', 'alt', '${2:ph} ${1}', 'dq'),
-                              ('attr', 'rel', 'a${3}b', 'dq'), ('attr', 'href', '', 'dq'), ('attr', 'alt', '${caption}', 'dq'), ('attr', 'title', '${foo}', 'raw')],
+                              ('attr', 'rel', 'a${3}b', 'dq'), ('attr', 'class', 'a${1} b${1}', 'dq'), ('attr', 'class', '${2:x} ${1:y}', 'dq'), ('attr', 'id', 'i${1}${2}', 'raw'), ('attr', 'href', '', 'dq'), ('attr', 'alt', '${caption}', 'dq'), ('attr', 'title', '${foo}', 'raw')],
                    text_pool=['txt', '${1}', '${1:one} and ${2}', 'l1\nl2', '${2:b}${1:a}', 'a ${0} z', 'x ${3:c}', 'foo\nbar ${1}', 'Tom & Jerry', 'a & b\nc & d', 'first ${2:b}\nsecond ${1:a}', '${1:x} one\ntwo', '${3:c}\n${1}\nmid ${2:k}', '${2}\n${1}', '${foo}', 'a ${bar} b', '${lang}'])
         for _ in range(n):
             c = {}
@@ -226,17 +265,21 @@ def cases(tier, seed, prop):
         names = ['div', 'p', 'span', 'ul', 'li', 'em', 'b', 'hr', 'br', 'strong', 'section', 'x', 'table', 'tr', 'td', 'article', 'body', 'i', 'h1', 'nav']
         if prop == 'C15': names = names + ['samp', 'kbd', 'var', 'code', 'q', 's', 'tt', 'sub', 'sup', 'cite', 'dfn', 'u', 'small', 'big', 'del', 'ins', 'strike']
         o12 = dict(base_opt('C04'), names=names, p_attr=.3, p_text=.35, p_noname=.1, p_void_child=.25,
-                   attr_pool=[('attr', 'title', 'v', 'raw'), ('attr', 'data-x', 'a b', 'dq'), ('attr', 'lang', None, None), ('attr', 'rel', 'e', 'expr')] if prop == 'C12' else [('attr', 'title', 'v', 'raw'), ('attr', 'data-x', 'a b', 'dq'), ('attr', 'd', 'M0', 'raw'), ('attr', 'as', 'font', 'raw'), ('attr', 'a', '1', 'raw'), ('attr', 's', 'z', 'dq'), ('attr', 'rel', 'e', 'expr'), ('attr', 'on', 'f(x)', 'expr'), ('bool', 'hidden'), ('bool', 'foo'), ('bool', 'disabled'), ('implied', 'dir', None), ('implied', 'lang', 'en'), ('implied', 'dir', None)],
-                   text_pool=['txt', 'a b', 'l1\nl2', 'one\ntwo\nthree', 'x', ' sp ', 'first\rsecond', 'p\r\nq'] if prop == 'C12' else ['txt', 'a b', 'l1\nl2', 'one\ntwo\nthree', 'x', 'first\rsecond', 'a\x0bb', 'p\r\nq', 'Item\n$ of 3', 'n\n$$\n$ x', '$\nb'])
+                   attr_pool=[('attr', 'title', 'v', 'raw'), ('attr', 'data-x', 'a b', 'dq'), ('attr', 'lang', None, None), ('attr', 'rel', 'e', 'expr')] if prop == 'C12' else [('attr', 'title', 'v', 'raw'), ('attr', 'data-x', 'a b', 'dq'), ('attr', 'd', 'M0', 'raw'), ('attr', 'as', 'font', 'raw'), ('attr', 'a', '1', 'raw'), ('attr', 's', 'z', 'dq'), ('attr', 'rel', 'e', 'expr'), ('attr', 'on', 'f(x)', 'expr'), ('bool', 'hidden'), ('bool', 'foo'), ('bool', 'disabled'), ('implied', 'dir', None), ('implied', 'lang', 'en'), ('implied', 'dir', None), ('attr', 'class', 'x\ty', 'dq'), ('attr', 'class', 'q  r', 'dq'), ('attr', 'class', 'u \t v', 'dq')],
+                   text_pool=['txt', 'a b', 'l1\nl2', 'one\ntwo\nthree', 'x', ' sp ', 'first\rsecond', 'p\r\nq'] if prop == 'C12' else ['txt', 'a b', 'l1\nl2', 'one\ntwo\nthree', 'x', 'first\rsecond', 'a\x0bb', 'p\r\nq', 'Item\n$ of 3', 'n\n$$\n$ x', '$\nb', 'first\n\nthird', '\nfoo', 'a\n\n\nb'])
         for _ in range(n):
             seq = mk.gen_seq(rnd, o12, [rnd.randint(1, 8)], 2)
             tidy_C13(seq)
+            if prop == 'C12' and rnd.random() < .12:
+                insert_empty_text(rnd, seq)
             if prop == 'C12':
                 c = {'syntax': rnd.choice(['html', 'html', 'xml', 'xsl', 'jsx', 'vue', 'svelte'])}
                 out.append({'seq': seq, 'c': dict(c, options=rand_layout(rnd)), 'alt': dict(c, options=rand_layout(rnd)), 'g': 'random'})
             else:
                 c = {'syntax': rnd.choice(['haml', 'pug', 'slim'])}
                 if rnd.random() < .5: c['options'] = {'output.indent': rnd.choice(['\t', '  ', '    ', ' '])}
+                ps_ = mk.print_seq(seq)
+                if '\n\n' in ps_ or '{\n' in ps_: c.pop('options', None)      # blank text lines are padded with blanks: keep the indentation unit (a tab) distinguishable
                 out.append({'seq': seq, 'c': c, 'g': 'random'})
         if prop == 'C12':
             # text nodes with fields and children (the children replace the first field; what follows it must survive every layout)
@@ -274,6 +317,8 @@ def inline_elements(cfg):
 # ------------------------------------------------------------------------------------------------- C01
 def oracle_C01(case, o):
     if o[0] != 'ok': return ['no-output| expand(%r) -> %s %s' % (case['s'], o[0], o[1])]
+    if case['c'].get('syntax') in ('haml', 'pug', 'slim'):
+        return ['tree| ' + v.split('|', 1)[1] for v in oracle_C15(case, o)]      # the tree is read from the indentation: one line per element at its depth
     forest = mk.unroll(mk.flat(case['seq']))
     if case.get('alias'): forest = mk.apply_alias(forest)
     ctx = (case['c'].get('context') or {}).get('name')
@@ -311,11 +356,16 @@ def doc_order(forest, acc):
 
 def oracle_C02(case, o):
     if o[0] != 'ok': return ['no-output| expand(%r) -> %s %s' % (case['s'], o[0], o[1])]
+    if 'expect' in case:
+        got = mk.strip_fields(o[1])
+        return [] if got == case['expect'] else ['numbering| expand(%r, %r) = %r, expected %r' % (case['s'], case['c'], got, case['expect'])]
     mr = case['c'].get('maxRepeat')
     forest = mk.unroll(mk.flat(case['seq']), None, [mr] if mr else None)
     if case.get('alias'): forest = mk.apply_alias(forest)
     mk.implicit_names(forest, None, inline_doc(case['c']))
     want = doc_order(forest, [])
+    if case['c'].get('syntax') == 'jsx':       # documented name map of the syntax
+        want = [(w[0], w[1], [({'class': 'className', 'for': 'htmlFor'}.get(n, n), v) for n, v in w[2]]) if w[0] == 'open' else w for w in want]
     got = []
     for t in mk.read_html(o[1]):
         if t[0] == 'open': got.append(('open', t[1].lower(), [(n, mk.strip_fields(v or '')) for n, q, v in t[2]]))
@@ -413,6 +463,9 @@ def render_attrs(attrs, opt):
 def oracle_C03(case, o):
     from emmet.config import Config
     if o[0] != 'ok': return ['no-output| expand(%r) -> %s %s' % (case['s'], o[0], o[1])]
+    if 'expect' in case:
+        got = mk.strip_fields(o[1])
+        return [] if got == case['expect'] else ['attributes| expand(%r, %r) = %r, expected %r' % (case['s'], case['c'], got, case['expect'])]
     opt = Config(mkcfg(case['c'])).options
     forest = mk.unroll(mk.flat(case['seq']))
     els = []
@@ -441,7 +494,8 @@ TEXT_TPL = ['x{%s}', 'x[title=v]{%s}>em', 'ul>li{%s}*2', 'p>b{%s}+i', '(x.c{%s}>
 WRAP_LINES = ['foo', 'bar baz', '', '   ', '  indented  ', '*3', '$$', 'a>b+c', '${1}', ')', '[x=y]', '{t}', 'item $#', '\\', 'é ü', 'x^2', 'a.b#c', '\t tab']
 # (abbreviation, has implicit repeater, where the text goes: list of (tag carrying the text, prefix) per copy)
 WRAP_TPL = [('ul>li*', True), ('ul>li*>a', True), ('ul>li[title=$#]*>b{x $#}', True), ('p*+em', True), ('div>p', False), ('x', False), ('div>span*2', False), ('(tr>td)+b', False),
-            ('ul>li*>span*2{$#}', True), ('ul>li*>(b{$#}+i)*2', True), ('hr*', True), ('div>hr/', False)]
+            ('ul>li*>span*2{$#}', True), ('ul>li*>(b{$#}+i)*2', True), ('hr*', True), ('div>hr/', False),
+            ('ul>li*{Note ${1}: }', True), ('ul>li*>a{${1}link: }', True)]
 
 
 def gen_w(rnd, n):
@@ -578,10 +632,12 @@ def oracle_C04_wrap(case, o):
         elif k == 3: want = ''.join('<p>%s</p>' % l for l in lines) + '<em></em>'
         elif k == 8: want = '<ul>' + ''.join('<li><span>%s</span><span>%s</span></li>' % (l, l) for l in lines) + '</ul>'
         elif k == 9: want = '<ul>' + ''.join('<li><b>%s</b><i></i><b>%s</b><i></i></li>' % (l, l) for l in lines) + '</ul>'
+        elif k == 12: want = '<ul>' + ''.join('<li>Note : %s</li>' % l for l in lines) + '</ul>'
+        elif k == 13: want = '<ul>' + ''.join('<li><a href="">link: %s</a></li>' % l for l in lines) + '</ul>'
         else: want = ''.join('<hr>%s</hr>' % l for l in lines)
         if not lines:
             # no non-blank line: zero copies of the repeated element
-            want = {0: '<ul></ul>', 1: '<ul></ul>', 2: '<ul></ul>', 3: '<em></em>', 8: '<ul></ul>', 9: '<ul></ul>', 10: ''}[k]
+            want = {0: '<ul></ul>', 1: '<ul></ul>', 2: '<ul></ul>', 3: '<em></em>', 8: '<ul></ul>', 9: '<ul></ul>', 10: '', 12: '<ul></ul>', 13: '<ul></ul>'}[k]
     else:
         tx = ('\n'.join(text) if isinstance(text, list) else text).strip()
         want = {4: '<div><p>%s</p></div>', 5: '<x>%s</x>', 6: '<div><span></span><span>%s</span></div>', 7: '<tr><td></td></tr><b>%s</b>', 11: '<div><hr>%s</hr></div>'}[k] % tx
@@ -623,6 +679,9 @@ def tidy_C13(seq):
             key = m[1] if m[0] == 'attr' else m[0] + str(len(ms))
             if key in seen: continue
             seen.add(key); ms.append(m)
+        # a class / id given in attribute form stands alone (merging with the shorthand moves it to the first mention: C03's subject)
+        for nm in ('class', 'id'):
+            if any(m[0] == 'attr' and m[1] == nm for m in ms): ms = [m for m in ms if m[0] != nm]
         item['mentions'] = ms
         if op == '>' and item['text'] and '${' in item['text']: item['text'] = 'txt'
 
@@ -640,7 +699,9 @@ def expected_fields(forest, indent_syntax, acc, base):
     not self-closed gets its own tabstop; an explicit value with indices I at running base b emits b+i and advances b by max(I)+1"""
     for el in forest:
         seen = []
-        for m in el['mentions']:
+        # the indentation-based syntaxes write id / class first (`name#id.class`), then the attribute list
+        ms = el['mentions'] if not indent_syntax else [m for m in el['mentions'] if m[0] == 'attr' and m[1] in ('id', 'class')] + [m for m in el['mentions'] if not (m[0] == 'attr' and m[1] in ('id', 'class'))]
+        for m in ms:
             if m[0] == 'attr' and m[1] not in seen:
                 seen.append(m[1])
                 v = m[2]
@@ -717,7 +778,7 @@ def oracle_C13(case, o, calls, escaped=False):
         return v
     if 'seq' in case and not escaped:
         forest = mk.unroll(mk.flat(case['seq']))
-        want = expected_fields(forest, False, [], [1])
+        want = expected_fields(forest, case['c'].get('syntax') in ('haml', 'pug', 'slim'), [], [1])
         got = [int(x) for x in IDX_RE.findall(final)]
         if got != want: v.append('numbering| expand(%r, %r): tabstop indices in document order %r, expected %r' % (case['s'], case['c'], got, want))
         # read off the output itself (tag syntaxes): no attribute value and no leaf content is left empty without a tabstop
@@ -784,6 +845,16 @@ def cases_C14(tier, rnd):
         out.append({'s': k + '>' + k + '>u', 'alt': v + '>(' + v + '>u)', 'c': c, 'g': 'alias-in-alias'})
         out.append({'s': k + '>p+' + k + '>' + k, 'alt': v + '>(p+(' + v + '>(' + v + ')))', 'c': c, 'g': 'alias-in-alias'})
         out.append({'s': 'w>' + k + '>u+v', 'alt': 'w>(' + v + '>u+v)', 'c': c, 'g': 'deepest-last'})
+    # an earlier call failed in the middle of a nested resolution (alias `box` uses `menu` uses the broken `item`): the corrected table expands as ever
+    bad = {'snippets': {'menu': 'nav>item', 'item': 'li[title="]', 'box': 'div>menu'}}
+    good = {'snippets': {'menu': 'nav>item', 'item': 'li[title=""]', 'box': 'div>menu'}}
+    for k, alt in [('box', 'div>nav>li[title=""]'), ('menu', 'nav>li[title=""]'), ('ul>menu*2', 'ul>(nav>li[title=""])*2'), ('box>b', 'div>nav>li[title=""]>b')]:
+        out.append({'s': k, 'alt': alt, 'c': good, 'precalls': [('box', bad), ('menu', bad), ('p>box', bad)], 'g': 'after-failure'})
+    # an empty wrap text does not reach the definitions
+    for tx in ('', [], [''], ['  ']):
+        for k, alt in [('two+p', 'a+b+p'), ('card+em', 'div.card>h2+p^em'), ('deep+p', 'ul>li>em+b>i^^^p'), ('pair+two+x', 'p>span+q>s^^a+b+x')]:
+            out.append({'s': k, 'alt': alt, 'c': {'snippets': dict(multi), 'text': tx}, 'g': 'empty-text'})
+            out.append({'s': k, 'alt': alt, 'c': {'snippets': dict(multi), 'text': tx, 'syntax': 'pug'}, 'g': 'empty-text'})
     # a definition with text of its own: text written on the alias replaces it on every top-level element
     withtext = {'note': 'p.note{default text}', 'two2': 'h1{Title}+p', 'lbl': 'label{L}+input'}
     for k, alt in [('note{hello}', 'p.note{hello}'), ('two2{x}', 'h1{x}+p{x}'), ('note', 'p.note{default text}'), ('lbl{y}*2', '(label{y}+input{y})*2'), ('div>note{a b}', 'div>p.note{a b}')]:
@@ -870,6 +941,7 @@ def oracle_C12(case, o):
 
     def collect(f):
         for el in f:
+            if not el['name']: collect(el['kids']); continue          # a text node
             names.add(el['name'].lower()); collect(el['kids'])
     collect(forest)
     texts = [(o[1], case['c'])]
@@ -885,6 +957,7 @@ def oracle_C12(case, o):
 
         def classify(f):
             for el in f:
+                if not el['name']: classify(el['kids']); continue
                 leafs.append((el['name'].lower() in mk.VOID or el['slash']) and not el['kids']); order.append(el); classify(el['kids'])
         classify(forest)
         leaf = set(i for i, b_ in enumerate(leafs) if b_)
@@ -936,9 +1009,14 @@ def lines_of(forest, sy, depth, acc):
     """one line per element at its depth: name#id.class.class + the syntax's attribute list; `div` omitted when id / class present;
     multi-line text one line per text line one level deeper"""
     for el in forest:
-        ids = [m[1] for m in el['mentions'] if m[0] == 'id']; cls = [m[1] for m in el['mentions'] if m[0] == 'class']
+        ids = [m[1] for m in el['mentions'] if m[0] == 'id']
+        cls = []          # class names: the shorthand mentions and the words of a class given in attribute form, in the order written
+        for m in el['mentions']:
+            if m[0] == 'class': cls.append(m[1])
+            elif m[0] == 'attr' and m[1] == 'class' and m[2]: cls += m[2].split()
         attrs = []
         for m in el['mentions']:
+            if m[0] == 'attr' and m[1] == 'class': continue
             if m[0] == 'attr' and m[1] not in [a[0] for a in attrs]: attrs.append((m[1], m[2], m[3]))
             elif m[0] == 'bool' and m[1] not in [a[0] for a in attrs]: attrs.append((m[1], None, 'bool'))
             elif m[0] == 'implied' and m[2] is not None and m[1] not in [a[0] for a in attrs]: attrs.append((m[1], m[2], 'raw'))      # an implied attribute without value is dropped
@@ -949,7 +1027,7 @@ def lines_of(forest, sy, depth, acc):
         done = set()
         for m in el['mentions']:          # id / class shorthands in the order they were first written
             if m[0] == 'id' and 'id' not in done: head += '#' + ids[-1]; done.add('id')
-            elif m[0] == 'class' and 'class' not in done: head += ''.join('.' + c for c in cls); done.add('class')
+            elif (m[0] == 'class' or (m[0] == 'attr' and m[1] == 'class')) and 'class' not in done: head += ''.join('.' + c for c in cls); done.add('class')
         if attrs:
             # an expression keeps its braces; a boolean attribute without value: `name=true` in haml, the bare name in pug and slim
             parts = [('%s=true' % n if sy == 'haml' else n) if (k == 'bool' or (v is None and n in BOOL_DOC)) else '%s={%s}' % (n, v) if k == 'expr' else '%s="%s"' % (n, v) for n, v, k in attrs]
@@ -1003,6 +1081,7 @@ def run(case, prop):
             viol += oracle_C13(case, o2, calls2, escaped=True)
         tags = {'gen:' + case['g']: 1, 'outcome:' + o[0]: 1, 'syntax:' + case['c'].get('syntax', '-'): 1, 'callbacks': len(calls)}
         return line_of(o), viol[:4], tags
+    for ab_, cfg_ in case.get('precalls', []): outcome(ab_, mkcfg(cfg_))          # earlier calls in the same process
     o = outcome(case['s'], mkcfg(case['c']))
     viol = ORACLES[prop](case, o) if prop in ORACLES else []
     if prop in ORACLES and not case.get('nomodel'):
